@@ -27,7 +27,7 @@ RULE = ("0-8 agents with arbitrary subsets of 4 component types and tags from {d
 COMPONENTS = {"real": ["ECAgent.Core.Environment.get_agents / get_random_agent / shuffle / add_agent / remove_agent",
                        "Agent.has_component", "Model.random", "SpaceWorld (some runs)"],
               "stub": ["component classes and agents are harness-defined; global random / numpy.random are perturbed"]}
-PROBES = ["unfinished_walk_before_the_query", "position_subclass_component", "tag_zero_filter", "template_and_tag", "nobody_matches", "partial_template_match", "returned_list_mutated",
+PROBES = ["negative_tag", "unfinished_walk_before_the_query", "position_subclass_component", "tag_zero_filter", "template_and_tag", "nobody_matches", "partial_template_match", "returned_list_mutated",
           "reach_all_members", "same_seed_repeat", "type_nobody_has", "spatial_world", "default_tag_agent", "retag_while_resident", "model_lifecycle_op", "subclass_component_only", "agent_is_an_environment", "ops_from_inside_a_timestep", "agent_class_with_class_components", "removal_refused_half_way", "history_continued_on_a_copy"]
 TECHNIQUE = "deterministic simulation: filter queries inside seeded add/remove histories vs a list-comprehension reference; bounded reachability over reseeded model generators; ambient RNG perturbation between picks"
 LEVEL_TEXT = ("Seeded search over populations, histories, templates and tag filters; every listing must equal the reference filter "
@@ -151,6 +151,13 @@ def generate(rng, tier):
         for o_ in ops:
             if "tmpl" in o_ and rng.random() < 0.5:
                 o_["tmpl"] = (o_["tmpl"] + [6]) if rng.random() < 0.5 or not o_["tmpl"] else [6 if i_ == 0 else t_ for i_, t_ in enumerate(o_["tmpl"])]
+    if rng.random() < 0.12:
+        for p_ in pool:
+            if rng.random() < 0.4:
+                p_["negtag"] = True
+        for o_ in ops:
+            if o_.get("tag", "absent") != "absent" and rng.random() < 0.5:
+                o_["tag"] = -1
     if rng.random() < 0.25:
         for o_ in ops:
             if "tmpl" in o_ and rng.random() < 0.5:
@@ -177,6 +184,9 @@ def execute(sc, ctx):
 
     def make(spec):
         tag = TAGS[spec["tag"] % len(TAGS)]
+        if spec.get("negtag"):
+            tag = -1          # a negative marker (DEAD = -1): tags are plain ints
+            ctx.probe("negative_tag")
         nest = spec.get("nest")
         if nest:
             a = SpaceWorld(m, 2.0, 2.0, id=spec["id"]) if nest["kind"] == "space" else Environment(m, id=spec["id"])
